@@ -153,7 +153,7 @@ def count (c : String) (l : List String) : Nat := (l.filter (· == c)).length
 def judgeDrain (keys : List String) (expected : String → Nat) (ever : String → Bool) (got : List String) : Option String :=
   let ks := (keys ++ got).eraseDups
   match ks.find? (fun k => decide (count k got > expected k) && !(ever k)) with
-  | some k => some ("notified-live:" ++ k)
+  | some k => some ("notified-early:" ++ k)
   | none =>
     match ks.find? (fun k => decide (count k got > expected k)) with
     | some k => some ("notified-twice:" ++ k)
